@@ -14,6 +14,9 @@
 //!   One-way streams (`oneway=`): a client only SENDS, a datagram every few seconds, for longer than two
 //!   periods of the client's prune task while the target is silent; then the target answers the last
 //!   datagram and one more exchange follows: the answer must arrive like any other reply.
+//!   Junk on the relay socket (`junk=`): a datagram that is not a well-formed RFC 1928 request is sent to the
+//!   relay address of a SOCKS5 association (by its own client or by another local socket); the next
+//!   ordinary exchange of every client must work (RFC 1928 section 7: the relay drops such datagrams).
 //! * maps: the client's two UDP maps against the Lean model under the paused clock (maps.rs).
 //!
 //! Every wait is bounded; a hang is a failure.  A failing scenario is run again on its own in a
@@ -31,7 +34,7 @@ use pvhf::{Args, Driver, FailKind, Report, Rng, Tier, Value, fnv, json};
 use std::sync::Arc;
 use std::time::{Duration, Instant};
 use tcp::{check_conn, run_conn, ConnObs, Entry, Mode, TcpScn, ALL_MODES, ENTRIES, MODES};
-use udp::{run_udp, OneWay, UdpOutcome, UdpScn};
+use udp::{run_udp, Junk, JunkKind, OneWay, UdpOutcome, UdpScn, JUNK_KINDS};
 use world::{World, SLOTS};
 
 #[derive(Clone, Debug)]
@@ -315,6 +318,7 @@ fn random_udp(r: &mut Rng, socks: bool) -> UdpScn {
         domain: socks && r.chance(1, 4),
         idle_ms: 0,
         oneway: None,
+        junk: None,
         seed: r.next() % 1_000_000_000,
     }
 }
@@ -326,7 +330,7 @@ fn random_udp(r: &mut Rng, socks: bool) -> UdpScn {
 /// scenario of this family runs in a world of its own, concurrently with everything else.
 fn one_way_pass(r: &mut Rng, tier: Tier) -> Vec<Scn> {
     let mk = |socks: bool, clients: usize, targets: &[usize], sizes: &[usize], replies: usize, domain: bool, seed: u64, ow: OneWay| {
-        Scn::Udp(UdpScn { socks, clients, targets: targets.to_vec(), sizes: sizes.to_vec(), replies, domain, idle_ms: 0, oneway: Some(ow), seed })
+        Scn::Udp(UdpScn { socks, clients, targets: targets.to_vec(), sizes: sizes.to_vec(), replies, domain, idle_ms: 0, oneway: Some(ow), junk: None, seed })
     };
     let ow = |ms: u64, gap_ms: u64, sizes: &[usize], streamers: usize, shared: bool, at_ms: Option<u64>| OneWay { ms, gap_ms, sizes: sizes.to_vec(), streamers, shared, at_ms };
     let mut v = vec![
@@ -370,6 +374,32 @@ fn one_way_pass(r: &mut Rng, tier: Tier) -> Vec<Scn> {
     v
 }
 
+/// Junk on the relay socket of a SOCKS5 UDP association: a datagram that is not a well-formed RFC 1928 UDP
+/// request arrives there, from the association's own client socket or from another local socket, after (or
+/// before) an ordinary exchange.  RFC 1928 section 7: the relay drops what it cannot or will not relay; the
+/// property: the next datagram still reaches the target and its reply the right client, for every client.
+fn junk_pass(r: &mut Rng, tier: Tier) -> Vec<Scn> {
+    let mk = |clients: usize, targets: &[usize], sizes: &[usize], domain: bool, seed: u64, kind: JunkKind, other: bool, before: bool| {
+        Scn::Udp(UdpScn { socks: true, clients, targets: targets.to_vec(), sizes: sizes.to_vec(), replies: 1, domain, idle_ms: 0, oneway: None, junk: Some(Junk { kind, other, before }), seed })
+    };
+    let mut v = vec![
+        // (the first is also corpus/C01/junk-datagram-ends-association.ops)
+        mk(1, &[0], &[24], false, 9, JunkKind::Empty, false, false),
+        mk(1, &[0], &[24], false, 9, JunkKind::Atyp9, true, false),
+    ];
+    if tier == Tier::Thorough {
+        for (i, k) in JUNK_KINDS.iter().enumerate() {
+            // every kind from either sender after an ordinary exchange ...
+            v.push(mk(1, &[0], &[24], false, 9, *k, false, false));
+            v.push(mk(1, &[0], &[24], false, 9, *k, true, false));
+            // ... and before anything valid, alternating the sender; with a second association next to it
+            v.push(mk(1, &[0], &[24], false, r.next() % 1_000_000, *k, i % 2 == 0, true));
+            v.push(mk(2, &[0, 1], &[16, 1400], i % 3 == 0, r.next() % 1_000_000, *k, i % 2 == 1, i % 4 == 0));
+        }
+    }
+    v
+}
+
 /// Scenarios that mostly wait (idle time, one-way streams): each gets a world and a thread of its own.
 fn is_long(s: &Scn) -> bool {
     matches!(s, Scn::Udp(u) if u.idle_ms >= 3000 || u.oneway.is_some())
@@ -409,15 +439,17 @@ fn fixed_pass(r: &mut Rng, tier: Tier) -> Vec<Scn> {
     }
     // UDP
     for socks in [false, true] {
-        v.push(Scn::Udp(UdpScn { socks, clients: 1, targets: vec![0], sizes: vec![0, 1, 3, 4, 10, 1400], replies: 1, domain: false, idle_ms: 0, oneway: None, seed: r.next() % 1_000_000 }));
-        v.push(Scn::Udp(UdpScn { socks, clients: 4, targets: vec![0, 1], sizes: vec![10, 0, 1399, 64], replies: 2, domain: false, idle_ms: 0, oneway: None, seed: r.next() % 1_000_000 }));
-        v.push(Scn::Udp(UdpScn { socks, clients: 2, targets: vec![2], sizes: vec![12, 0, 700], replies: 1, domain: false, idle_ms: 0, oneway: None, seed: r.next() % 1_000_000 }));
+        v.push(Scn::Udp(UdpScn { socks, clients: 1, targets: vec![0], sizes: vec![0, 1, 3, 4, 10, 1400], replies: 1, domain: false, idle_ms: 0, oneway: None, junk: None, seed: r.next() % 1_000_000 }));
+        v.push(Scn::Udp(UdpScn { socks, clients: 4, targets: vec![0, 1], sizes: vec![10, 0, 1399, 64], replies: 2, domain: false, idle_ms: 0, oneway: None, junk: None, seed: r.next() % 1_000_000 }));
+        v.push(Scn::Udp(UdpScn { socks, clients: 2, targets: vec![2], sizes: vec![12, 0, 700], replies: 1, domain: false, idle_ms: 0, oneway: None, junk: None, seed: r.next() % 1_000_000 }));
     }
-    v.push(Scn::Udp(UdpScn { socks: true, clients: 3, targets: vec![0, 1], sizes: vec![16, 2, 1400], replies: 1, domain: true, idle_ms: 0, oneway: None, seed: r.next() % 1_000_000 }));
+    v.push(Scn::Udp(UdpScn { socks: true, clients: 3, targets: vec![0, 1], sizes: vec![16, 2, 1400], replies: 1, domain: true, idle_ms: 0, oneway: None, junk: None, seed: r.next() % 1_000_000 }));
     // one SOCKS5 UDP client socket, an IPv4 and an IPv6 target (and the same through two UDP remotes, where each
     // listener has its own flow id)
-    v.push(Scn::Udp(UdpScn { socks: true, clients: 1, targets: vec![0, 2], sizes: vec![16, 17], replies: 1, domain: false, idle_ms: 0, oneway: None, seed: 3 }));
-    v.push(Scn::Udp(UdpScn { socks: false, clients: 2, targets: vec![0, 2], sizes: vec![16, 17], replies: 1, domain: false, idle_ms: 0, oneway: None, seed: 4 }));
+    v.push(Scn::Udp(UdpScn { socks: true, clients: 1, targets: vec![0, 2], sizes: vec![16, 17], replies: 1, domain: false, idle_ms: 0, oneway: None, junk: None, seed: 3 }));
+    v.push(Scn::Udp(UdpScn { socks: false, clients: 2, targets: vec![0, 2], sizes: vec![16, 17], replies: 1, domain: false, idle_ms: 0, oneway: None, junk: None, seed: 4 }));
+    // junk on the relay socket of a SOCKS5 UDP association
+    v.extend(junk_pass(r, tier));
     // dialogues after a half-close, every entry point kind
     v.extend(half_close_pass(r, tier));
     v
@@ -539,7 +571,8 @@ fn main() {
     }
     let rule = "scenario = 1-4 concurrent local TCP connections (entry point kind, close order incl. dialogues after a half-close, payload sizes, chunkings) or one UDP \
 scenario (1-4 local UDP clients x tagged echo targets x payload sizes, via UDP remotes or SOCKS5 UDP associations; also after an idle \
-time, and one-way streams longer than two idle timeouts that the target answers only at the end) run in real time \
+time, one-way streams longer than two idle timeouts that the target answers only at the end, and exchanges after a malformed \
+datagram on the relay socket of a SOCKS5 association) run in real time \
 through the real client_main_inner and the real server on loopback; plus map-operation sequences on the real client maps under the \
 paused clock compared with the Lean model. Non-trivial = at least one byte / one datagram crossed the tunnel, or a close / refusal \
 was propagated; distinct by scenario text";
@@ -615,7 +648,7 @@ was propagated; distinct by scenario text";
     let mut waiting: Vec<Scn> = vec![];
     if only.as_deref() != Some("maps") && !args.flag("--no-idle") {
         for socks in [false, true] {
-            waiting.push(Scn::Udp(UdpScn { socks, clients: 2, targets: vec![0, 1], sizes: vec![24], replies: 1, domain: false, idle_ms: 10_600, oneway: None, seed: 5 }));
+            waiting.push(Scn::Udp(UdpScn { socks, clients: 2, targets: vec![0, 1], sizes: vec![24], replies: 1, domain: false, idle_ms: 10_600, oneway: None, junk: None, seed: 5 }));
         }
         if !args.flag("--no-one-way") {
             waiting.extend(one_way_pass(&mut rng.fork(3), args.tier));
@@ -686,6 +719,7 @@ was propagated; distinct by scenario text";
     }
     let mut reruns = 0;
     let mut unreproduced: Vec<String> = vec![];
+    let (mut junk_relayed, mut junk_relayed_kinds) = (0usize, Vec::<&str>::new());
     let mut confirmed_keys = std::collections::HashSet::new();
     let mut same_again: Vec<String> = vec![];
     let mut infra = 0;
@@ -725,9 +759,9 @@ was propagated; distinct by scenario text";
                 }
             }
         }
-        if !bad.is_empty() && is_long(sc) && bad.iter().all(|(k, _)| confirmed_keys.contains(k)) {
-            // a scenario that mostly waits, failing in a way that has already been confirmed and reported on
-            // another scenario: not run again (each re-run costs its whole waiting time)
+        if !bad.is_empty() && (is_long(sc) || matches!(sc, Scn::Udp(u) if u.junk.is_some())) && bad.iter().all(|(k, _)| confirmed_keys.contains(k)) {
+            // a scenario that mostly waits (or a junk scenario: every lost datagram is waited for), failing in a way
+            // that has already been confirmed and reported on another scenario: not run again
             same_again.push(format!("{} :: {}", bad[0].0, sc.line()));
         } else if !bad.is_empty() {
             // shrink / confirm: each failing connection alone, then the whole scenario alone
@@ -814,6 +848,13 @@ was propagated; distinct by scenario text";
                 if u.idle_ms > 0 {
                     rep.count("udp/after-idle");
                 }
+                if let Some(j) = &u.junk {
+                    rep.count(&format!("udp/after-junk/{}/by-{}/{}", j.kind.text(), if j.other { "other-socket" } else { "own-socket" }, if j.before { "before-any-exchange" } else { "after-an-exchange" }));
+                    junk_relayed += o.junk_relayed;
+                    if o.junk_relayed > 0 && !junk_relayed_kinds.contains(&j.kind.text()) {
+                        junk_relayed_kinds.push(j.kind.text());
+                    }
+                }
                 if let Some(ow) = &u.oneway {
                     rep.count(&format!("udp/after-one-way/{}", if u.socks { "socks5" } else { "udp-remote" }));
                     if ow.shared {
@@ -844,7 +885,7 @@ was propagated; distinct by scenario text";
         rep.fail(FailKind::Model, "harness:infrastructure", &format!("{skipped} of {} scenarios could not be run (ports / bind / world start-up); see notes", scs.len()), json!({}));
     }
     if !same_again.is_empty() {
-        rep.notes.push(format!("{} more waiting scenario(s) failed in a way already confirmed on another scenario and were not run again, e.g. {}", same_again.len(), same_again[0]));
+        rep.notes.push(format!("{} more scenario(s) failed in a way already confirmed on another scenario and were not run again: {}", same_again.len(), same_again.iter().take(40).cloned().collect::<Vec<_>>().join(" ;; ")));
     }
     for u in unreproduced.iter().take(8) {
         rep.notes.push(format!("failed once, not reproduced in 3 runs alone: {u}"));
@@ -855,6 +896,9 @@ was propagated; distinct by scenario text";
     ));
     rep.notes.push(format!(
         "SOCKS5 UDP reply headers (all well-formed, payload recovered): DST.ADDR/DST.PORT named the remote host in {hdr_remote}, the local client's own address in {hdr_client}, something else in {hdr_other} replies"
+    ));
+    rep.notes.push(format!(
+        "junk on a SOCKS5 relay socket: {junk_relayed} malformed datagram(s) were relayed to the target as if well-formed (kinds: {junk_relayed_kinds:?}; RSV != 0 is relayed by the pinned code: reported, not judged)"
     ));
     if let Some(d) = &drv {
         rep.notes.push(format!("driver lines: {}", d.lines));
